@@ -144,6 +144,44 @@ impl Sub<Duration> for Duration {
     }
 }
 
+pub trait TimeZone {
+
+}
+
+impl TimeZone for FixedOffset {
+
+}
+
+impl TimeZone for Tz {
+
+}
+
+impl vstd::std_specs::ops::NegSpecImpl for Duration {
+    open spec fn obeys_neg_spec() -> bool {
+        false
+    }
+
+    open spec fn neg_req(self) -> bool {
+        true
+    }
+
+    open spec fn neg_spec(self) -> Duration {
+        arbitrary()
+    }
+}
+
+impl Neg for Duration {
+    type Output = Duration;
+
+    #[verifier::external_body]
+    fn neg(self) -> (r: Duration)
+        ensures
+            r@ == -self@,
+    {
+        unimplemented!()
+    }
+}
+
 #[verifier::external_body]
 pub struct FixedOffset {
     o: u8,
@@ -196,12 +234,34 @@ impl<T> DateTime<T> {
 
     /// conversion to another zone keeps the instant
     #[verifier::external_body]
-    pub fn with_timezone(&self, tz: &FixedOffset) -> (r: DateTime<FixedOffset>)
+    pub fn with_timezone<Tz2: TimeZone>(&self, tz: &Tz2) -> (r: DateTime<Tz2>)
         ensures
             r.instant() == self.instant(),
     {
         unimplemented!()
     }
+}
+
+impl FixedOffset {
+    /// Some iff the offset is strictly within +-24 h
+    #[verifier::external_body]
+    pub fn east_opt(secs: i32) -> (r: Option<FixedOffset>)
+        ensures
+            r is Some <==> -86400 < secs < 86400,
+    {
+        unimplemented!()
+    }
+}
+
+impl Clone for Tz {
+    #[verifier::external_body]
+    fn clone(&self) -> (r: Tz) {
+        unimplemented!()
+    }
+}
+
+impl Copy for Tz {
+
 }
 
 impl DateTime<FixedOffset> {
